@@ -120,7 +120,7 @@ struct SeqRun {
                 } break;
                 case 6: if (subs.size() < 4 && !subs.empty()) {
                     SubM &src = *subs[o.a % subs.size()];
-                    if (src.parked || src.dead) break;
+                    if (src.dead) break;            // (a source that is suspended in next() may be copied too: the copy has received what the source has received)
                     subs.emplace_back(new SubM()); SubM &m = *subs.back(); m.mode = src.mode; m.c = src.c; m.kicked = false; m.s.reset(new Sub(*src.s));
                     if (src.kicked) m.kicked = false;       // a copy is a fresh registration
                 } break;
@@ -177,7 +177,7 @@ inline void run_seq(const SeqProg &p) {
 
 // ================================================================ (b) threads
 struct Reader_ { uint8_t flavour; uint8_t yields; uint8_t mode; };      // flavour 0 coroutine, 1 blocking
-struct MtProg { uint8_t count; uint8_t batch_at; uint8_t pub_yields; uint8_t finish; std::vector<Reader_> rd; uint8_t second_pub; uint8_t late_sub; uint8_t kick0; };   // late_sub / kick0: 0 no, else yields before a late subscriber subscribes / before subscriber 0 is kicked   // finish 0 close, 1 destroy; second_pub: values published concurrently by a 2nd thread
+struct MtProg { uint8_t count; uint8_t batch_at; uint8_t pub_yields; uint8_t finish; std::vector<Reader_> rd; uint8_t second_pub; uint8_t late_sub; uint8_t kick0; uint8_t copy0 = 0; };   // copy0: yields before another thread COPIES subscriber 0 (while its owner reads) and reads the copy to the end   // late_sub / kick0: 0 no, else yields before a late subscriber subscribes / before subscriber 0 is kicked   // finish 0 close, 1 destroy; second_pub: values published concurrently by a 2nd thread
 inline MtProg decode_mt(hz::Reader &r) {
     MtProg p; p.count = (uint8_t)(1 + r.mod(5)); p.batch_at = (uint8_t)r.mod(6); p.pub_yields = (uint8_t)r.mod(3); p.finish = (uint8_t)r.mod(2);
     unsigned n = 1 + r.mod(3);
@@ -186,6 +186,8 @@ inline MtProg decode_mt(hz::Reader &r) {
     p.late_sub = (uint8_t)(r.mod(3) == 0 ? 1 + r.mod(4) : 0);
     p.kick0 = (uint8_t)(r.mod(4) == 0 ? 1 + r.mod(4) : 0);
     if (p.finish == 1 || p.second_pub) { p.late_sub = 0; p.kick0 = 0; }      // both need the publisher object alive and value == position
+    p.copy0 = (uint8_t)(r.mod(3) == 1 ? 1 + r.mod(4) : 0);
+    if (p.finish == 1 || p.second_pub || p.kick0) p.copy0 = 0;
     return p;
 }
 inline std::string describe_mt(const MtProg &p) {
@@ -194,6 +196,7 @@ inline std::string describe_mt(const MtProg &p) {
     d << ", then " << (p.finish ? "the publisher is destroyed" : "close()");
     if (p.late_sub) d << "; a late all_values subscriber subscribes concurrently (after " << (unsigned)p.late_sub << " yields)";
     if (p.kick0) d << "; subscriber 0 is kicked concurrently (after " << (unsigned)p.kick0 << " yields)";
+    if (p.copy0) d << "; another thread copies subscriber 0 (after " << (unsigned)p.copy0 << " yields) and reads the copy to the end";
     d << "; subscriber threads:";
     for (auto &x : p.rd) d << " [" << (x.flavour == 2 ? "range-for over the subscriber" : x.flavour ? "blocking next()" : "co_await next()") << ", " << modes[x.mode] << ", yield*" << (unsigned)x.yields << "]";
     return d.s;
@@ -259,6 +262,15 @@ struct MtRun {
             Sub s(*pub, ST::all_values);
             for (;;) { bool more = (bool)s.next(); if (!more) break; late_got.push_back(s.value()); }
         });
+        // a copy of subscriber 0 taken by another thread while the owner reads the original: it continues independently
+        // from the position it was copied at (the position the copy reports right after its construction)
+        std::vector<int> copy_got; long copy_p0 = -1; std::thread copier;
+        if (prog.copy0) copier = std::thread([this, &prog, &copy_got, &copy_p0] {
+            hz::upoints(prog.copy0);
+            Sub c(*subs[0]);
+            copy_p0 = (long)c.position();
+            for (;;) { bool more = (bool)c.next(); if (!more) break; copy_got.push_back(c.value()); }
+        });
         if (prog.kick0) { hz::upoints(prog.kick0); pub->kick(subs[0].get()); }
         std::thread pt2;
         if (two) pt2 = std::thread([this, &prog] { for (unsigned k = 0; k < prog.second_pub; k++) { hz::upoint(); pub->publish(1000 + (int)k + 1); } });
@@ -269,6 +281,19 @@ struct MtRun {
             late.join();
             for (size_t k = 1; k < late_got.size(); k++) HZ_CHECK(late_got[k] == late_got[k - 1] + 1, "late subscriber: value %d follows %d (gap, duplicate or reorder)", late_got[k], late_got[k - 1]);
             if (!late_got.empty()) HZ_CHECK(late_got.back() == (int)total, "late subscriber's stream ended at %d although %ld values were published before close() and it was never kicked", late_got.back(), total);
+        }
+        if (copier.joinable()) {
+            copier.join();
+            if (prog.rd[0].mode == 0) {
+                for (size_t k = 0; k < copy_got.size(); k++)
+                    HZ_CHECK(copy_got[k] == (int)(copy_p0 + 1 + (long)k), "copy of subscriber 0 (copied at position %ld): value #%zu is %d, expected %ld (gap, duplicate or reorder)", copy_p0, k, copy_got[k], copy_p0 + 1 + (long)k);
+                HZ_CHECK((long)copy_got.size() == std::max(0L, total - copy_p0), "copy of subscriber 0 (copied at position %ld) saw the end of the stream after %zu values although %ld values were published, the queue is unlimited and nobody was kicked", copy_p0, copy_got.size(), total);
+            } else {
+                for (size_t k = 1; k < copy_got.size(); k++) HZ_CHECK(copy_got[k] > copy_got[k - 1], "copy of a %s subscriber moved backwards or repeated: %d after %d", modes[prog.rd[0].mode], copy_got[k], copy_got[k - 1]);
+                // (a skipping subscriber copied after it saw the end of the stream is outside the specified domain, like reading on after the end: range only)
+                for (int v : copy_got) HZ_CHECK(v >= 1 && v <= total, "copy of subscriber 0 (copied at position %ld) received %d, %ld values were published", copy_p0, v, total);
+            }
+            hz::count(3, 1);
         }
         if (two) {
             for (size_t i = 0; i < got.size(); i++) {
@@ -312,6 +337,6 @@ inline void run_mt(const MtProg &p) {
 inline void run(hz::Reader &r) { unsigned sel = r.mod(3); if (sel < 2) run_seq(decode_seq(r)); else run_mt(decode_mt(r)); }
 inline std::string describe(hz::Reader &r) { unsigned sel = r.mod(3); if (sel < 2) return "history: " + describe_seq(decode_seq(r)); return "threads: " + describe_mt(decode_mt(r)); }
 static const char *const class_names[] = {"history", "history:parked-subscriber-woken", "threads:no-lib-preempt", "threads:preempted-in-library"};
-static const char *const counter_names[] = {"reads_with_lag>=2", "parked_subscribers_woken", "end_indications"};
+static const char *const counter_names[] = {"reads_with_lag>=2", "parked_subscribers_woken", "end_indications", "subscriber_copied_by_another_thread"};
 
 } // namespace scen_pub
